@@ -4,7 +4,8 @@
    Constant, no other Extract Inductive. *)
 Require Extraction.
 Require Import ExtrOcamlBasic.
-From FV Require Import Base.Serial Session.Window.
+From FV Require Import Base.Serial Session.Window Link.SenderCredit.
 Extraction Language OCaml.
 Separate Extraction
-  Window.run Window.step Window.begun_for_oracle.
+  Window.run Window.step Window.begun_for_oracle
+  SenderCredit.lstep SenderCredit.linit.
